@@ -165,6 +165,14 @@ func (u *universe) round(r *rand.Rand, s *snap, budget int) []*rq {
 	bids := u.allBids(r)
 	for _, b := range bids {
 		out = append(out, &rq{M: "getBlockWithTxHashes", B: b}, &rq{M: "getBlockTransactionCount", B: b}, &rq{M: "getStateUpdate", B: b})
+		if r.IntN(2) == 0 && len(u.contracts) > 0 {
+			// v0.10: restricted to a few contracts (touched by the block or not), sometimes the empty list
+			only := []felt.Felt{}
+			for k := r.IntN(4); k > 0; k-- {
+				only = append(only, *pick(r, u.contracts))
+			}
+			out = append(out, &rq{M: "getStateUpdate", B: b, Only: only})
+		}
 		if r.IntN(2) == 0 {
 			out = append(out, &rq{M: "getBlockWithTxs", B: b})
 		}
